@@ -84,8 +84,11 @@ def run(tier, seed):
     cases = [("resonator." + st, (lambda st=st: lambda fr, bw: resonator[st](fr, bw))()) for st in ("poles_exp", "z_exp", "freq_poles_exp", "freq_z_exp")] + \
             [("gammatone." + st, (lambda st=st: lambda fr, bw: gammatone[st](fr, bw))()) for st in ("klapuri",)]   # slaney / sampled do not accept Streams
     for nm, mkf in cases:
+      for pkind, wrap in (("Stream", lambda v: Stream(list(v))), ("list", list), ("tuple", tuple)):
+        if pkind != "Stream" and not nm.startswith("gammatone."):
+            continue        # the resonator strategies take numbers or Streams; gammatone.klapuri also takes plain sequences
         def sp():
-            got = coeffs(mkf(Stream(list(fr_s)), Stream(list(bw_s))))
+            got = coeffs(mkf(wrap(fr_s), wrap(bw_s)))
             for i, (fr, bw) in enumerate(zip(fr_s, bw_s)):
                 exp = coeffs(mkf(fr, bw))
                 for key, v in exp.items():
@@ -97,7 +100,7 @@ def run(tier, seed):
                     if abs(g - v) > 1e-9:
                         return False, "coefficient %r at sample %d is %r, the constant design gives %r" % (key, i, g, v)
             return True, ""
-        R.guard("stream-parameter-equals-the-constant-design-sample-by-sample", {"design": nm}, sp)
+        R.guard("stream-parameter-equals-the-constant-design-sample-by-sample", {"design": nm, "parameters": pkind}, sp)
     # resonators
     bws = [1e-3, 0.01, 0.1, 0.5, 1.0]
     freqs = cuts[::3]
